@@ -929,6 +929,24 @@ pub fn c13_c16(tier: Tier, which: &'static str) -> i32 {
         }
     }
     let cache = &cache;
+    // C13: "discarded as a tree because it matches an exhaustive negation" - for every negation of
+    // the menus, on the installed partition programs and for ALL canonical paths: a directory that
+    // the tree-discarding program matches has no descendant that the negation does not match
+    if which == "C13" {
+        let mut layers = negation_layers(tier);
+        for p in ["t/{x/**,d}", "a/{b/**,a}", "{a,b}/{a/**,b}", "?/{a/**,*/b}", "a/{a,b/**}", "a/<b/**:0,1>"] {
+            if Glob::new(p).is_ok() {
+                layers.push(Layer::Not(p.to_string(), NotForm::Text));
+                layers.push(Layer::Not(p.to_string(), NotForm::Owned));
+            }
+        }
+        rep.add("negations_checked_for_tree_discard_soundness", layers.len() as u64);
+        layers.par_iter().for_each(|l| {
+            let mut c = Counters::new();
+            let _ = guard(|| partition_check(&rep, &mut c, l, true));
+            rep.merge(&c);
+        });
+    }
     // C13, first clause, on its own (no stack above the walk): every small glob of the file-system
     // alphabet, and globs whose components mix a group that crosses a component boundary with
     // other tokens, walked in every world; the feed must be the traversal pruned by the component
@@ -1411,6 +1429,12 @@ pub fn c03(tier: Tier) -> i32 {
 }
 
 fn c03_partition_check(rep: &Report, c: &mut Counters, l: &Layer) {
+    partition_check(rep, c, l, false)
+}
+
+/// `only_sound`: C13's use - only the tree-discard soundness alarms (a directory discarded as a
+/// tree "because it matches an exhaustive negation" must be one beneath which every path matches).
+fn partition_check(rep: &Report, c: &mut Counters, l: &Layer, only_sound: bool) {
     use crate::props_query::AncMon;
     let Some(nm) = NotModel::new(l) else {
         bump(c, "negations_rejected", 1);
@@ -1428,7 +1452,9 @@ fn c03_partition_check(rep: &Report, c: &mut Counters, l: &Layer) {
     let mon = AncMon { watch: 1, sat: 3 };
     let ex = crate::model::explore_counted(c, &dfas, &mon, &alphabet);
     bump(c, "partitions_checked", 1);
-    rep.sample(json!({"negation": l.describe(), "exhaustive_program": e.pattern, "nonexhaustive_program": n.pattern, "product_states": ex.states.len()}));
+    if !only_sound {
+        rep.sample(json!({"negation": l.describe(), "exhaustive_program": e.pattern, "nonexhaustive_program": n.pattern, "product_states": ex.states.len()}));
+    }
     let strings = crate::model::access_strings(&ex);
     let asts: Vec<refmodel::syntax::Seq> = pats.iter().filter_map(|p| refmodel::syntax::parse(p).ok()).collect();
     let mut seen: Vec<String> = vec![];
@@ -1466,7 +1492,7 @@ fn c03_partition_check(rep: &Report, c: &mut Counters, l: &Layer) {
         if any.is_match(strings[i].as_str()) != aw {
             bump(c, "binding_mismatches", 1);
         }
-        if (ae || an) != aw && !seen.contains(&"complete".to_string()) {
+        if !only_sound && (ae || an) != aw && !seen.contains(&"complete".to_string()) {
             seen.push("complete".into());
             rep.alarm(Alarm {
                 class: if d4_explains(c) { Some("nested-tree-position".into()) } else { None },
